@@ -64,7 +64,7 @@ from vlib import core
 from models import cpp
 
 LEVEL = "exploration"
-BUDGET = {"quick": 300, "thorough": 2400}    # deadlines, not expected times (a loaded machine is 3-5x slower)
+BUDGET = {"quick": 300, "thorough": 3600}    # deadlines, not expected times (a loaded machine is 3-5x slower)
 
 SHARD = 350                 # cases per packed file
 T_ALONE = 5                 # wall seconds for one alone run; the confirming re-run gets 10x as CPU time
